@@ -160,6 +160,7 @@ func runFaults(c *vf.Ctx, g *gitx.Git, bases []*wtlab.Base, only string) {
 		dir string
 		res resolved
 		pre state
+		pin inproc
 		fp  map[string]string
 		n   int
 	}
@@ -204,6 +205,10 @@ func runFaults(c *vf.Ctx, g *gitx.Git, bases []*wtlab.Base, only string) {
 		}
 		in := &instance{k: k, dir: dir, res: res, pre: observe(g, dir)}
 		in.fp = fastState(dir)
+		if in.pin, err = inprocFresh(dir); err != nil {
+			c.Broken("open %s for observation: %v", k.Label, err)
+			return
+		}
 		// fault-free run on a copy
 		run := dir + "-rec"
 		if err := wtlab.CopyTree(dir, run); err != nil {
@@ -301,6 +306,10 @@ func runFaults(c *vf.Ctx, g *gitx.Git, bases []*wtlab.Base, only string) {
 		}
 		var opErr error
 		pv, st := vf.Catch(func() { opErr = execOp(repo, in.k.Op, in.res) })
+		var postIn inproc
+		if pv == nil && opErr != nil && rec.Faulted.Load() {
+			postIn = observeInproc(repo, dir) // through the Repository that made the failing call (the fault fires only once)
+		}
 		repo.Close()
 		if pv != nil {
 			c.Fail("panic:fault:"+in.k.Label, fmt.Sprintf("%s panicked after injected fault #%d: %v\n%s", in.k.Label, j.k, pv, st), map[string]any{"case": in.k, "fault_at": j.k})
@@ -331,6 +340,16 @@ func runFaults(c *vf.Ctx, g *gitx.Git, bases []*wtlab.Base, only string) {
 			c.Count("leftover_lock_files_after_failed_call", n)
 		}
 		if sameFast(in.fp, fastState(dir)) {
+			c.Count("inproc_comparisons", 1)
+			if iset, idet := diffInproc(in.pin, postIn); len(iset) > 0 {
+				c.Eval(vf.ShapeHash(in.k.Label, fop.Kind, pathClass(fop.Path), "inproc", strings.Join(iset, "+")), true)
+				for _, ob := range iset {
+					c.Fail("fault:"+in.k.Label+":"+ob+":seen-through-same-repository", fmt.Sprintf("%s: filesystem call #%d %s failed with EIO, the call returned %q and the files on disk are unchanged, but the Repository that made the call now reports a different %s: %s",
+						in.k.Label, j.k, fop.String(), opErr, strings.Join(iset, "+"), strings.Join(idet, "; ")),
+						map[string]any{"case": in.k, "fault_at": j.k, "faulted_op": fop, "error": fmt.Sprint(opErr), "changed": iset, "detail": idet})
+				}
+				return
+			}
 			c.Count("faulted_calls_state_unchanged", 1)
 			c.Eval(vf.ShapeHash(in.k.Label, fop.Kind, pathClass(fop.Path), "unchanged"), true)
 			return
